@@ -116,7 +116,26 @@ fn convert(entry: u32, input: &str, st: &Settings, ow: f32, oh: f32) -> String {
         1 => svgbob::to_svg_string_pretty(input),
         2 => svgbob::to_svg_string_compressed(input),
         3 => svgbob::to_svg_with_settings(input, st),
-        _ => svgbob::to_svg_with_override_size(input, st, ow, oh),
+        4 => svgbob::to_svg_with_override_size(input, st, ow, oh),
+        _ => {
+            // one CellBuffer rendered twice: first with other settings (scale `ow`, switches inverted), then
+            // with the requested ones; what the second render returns must not depend on the first
+            let cb = svgbob::CellBuffer::from(input);
+            let first = Settings {
+                scale: if ow > 0.0 { ow } else { 1.0 },
+                include_backdrop: !st.include_backdrop,
+                include_styles: !st.include_styles,
+                include_defs: !st.include_defs,
+                ..st.clone()
+            };
+            let (first_node, _, _): (svgbob::Node<()>, f32, f32) = cb.get_node_with_size(&first);
+            let mut sink = String::new();
+            first_node.render(&mut sink).expect("must render");
+            let (node, _, _): (svgbob::Node<()>, f32, f32) = cb.get_node_with_size(st);
+            let mut buffer = String::new();
+            node.render(&mut buffer).expect("must render");
+            buffer
+        }
     }
 }
 
